@@ -57,6 +57,11 @@ pub fn candidates(prop: &str) -> Vec<Value> {
                 v.push(json!({"call": "pop", "group": g, "key": k, "kind": kind}));
             }}}
         }
+        "C05" => {
+            for g in ["G1", "G2"] { for k in 0..5 { for kind in ["pop_as_signature", "signature_as_pop", "pops_as_aggregate", "relabel_all", "pok_relabel", "ciphertext_relabel"] {
+                v.push(json!({"call": "domain_sep", "group": g, "key": k, "kind": kind}));
+            }}}
+        }
         "C06" => {
             for g in ["G1", "G2"] { for s in schemes() { for n in [2usize, 3, 5] { for kind in ["honest", "permuted", "dup_msg", "drop_last", "alter_first_msg", "alter_last_key", "swap_msgs", "single", "mixed"] {
                 v.push(json!({"call": "aggregate", "group": g, "scheme": scheme_name(s), "n": n, "kind": kind}));
@@ -129,6 +134,7 @@ pub fn run(c: &Value) -> Option<String> {
         "perturbed_verify" => by_group!(c, perturbed_verify),
         "identity_inputs" => by_group!(c, identity_inputs),
         "pop" => by_group!(c, pop),
+        "domain_sep" => by_group!(c, domain_sep),
         "aggregate" => by_group!(c, aggregate),
         "multi" => by_group!(c, multi),
         "pok" => by_group!(c, pok),
@@ -287,6 +293,72 @@ fn pop<C: BlsSignatureImpl + PartialEq>(c: &Value, keys: &[SecretKey<C>]) -> Opt
         "other_key" => if p.verify(other.public_key()).is_ok() { Some("proof accepted for another key".into()) } else { None },
         "neg" => if ProofOfPossession::<C>(-p.0).verify(sk.public_key()).is_ok() { Some("-proof accepted".into()) } else { None },
         _ => if ProofOfPossession::<C>(p.0 + g).verify(sk.public_key()).is_ok() { Some("proof+G accepted".into()) } else { None },
+    }
+}
+
+/// C05: nothing made for one scheme / purpose is accepted under another
+fn domain_sep<C: BlsSignatureImpl + PartialEq + Copy>(c: &Value, keys: &[SecretKey<C>]) -> Option<String> {
+    let k = c["key"].as_u64().unwrap() as usize;
+    let sk = &keys[k]; let pk = sk.public_key();
+    let pkb: Vec<u8> = Vec::from(&pk);
+    let m = b"domain separation".to_vec();
+    match c["kind"].as_str().unwrap() {
+        "pop_as_signature" => {
+            let p = sk.proof_of_possession().ok()?;
+            for s in schemes() { if mk::<C>(s, p.0).verify(&pk, &pkb).is_ok() { return Some(format!("a proof of possession verifies as a {} signature over the public-key bytes", scheme_name(s))); } }
+            None
+        }
+        "signature_as_pop" => {
+            for s in schemes() { let sg = sk.sign(s, &pkb).ok()?; if ProofOfPossession::<C>(sig_pt(&sg)).verify(pk).is_ok() { return Some(format!("a {} signature over the public-key bytes verifies as a proof of possession", scheme_name(s))); } }
+            None
+        }
+        "pops_as_aggregate" => {
+            let o = &keys[(k + 1) % keys.len()];
+            let (p1, p2) = (sk.proof_of_possession().ok()?, o.proof_of_possession().ok()?);
+            let opkb: Vec<u8> = Vec::from(&o.public_key());
+            for s in schemes() {
+                let a = match AggregateSignature::<C>::from_signatures(&[mk::<C>(s, p1.0), mk::<C>(s, p2.0)]) { Ok(a) => a, Err(_) => continue };
+                if a.verify(&[(pk, pkb.clone()), (o.public_key(), opkb.clone())]).is_ok() { return Some(format!("proofs of possession are accepted as a {} aggregate signature over the public-key bytes", scheme_name(s))); }
+            }
+            None
+        }
+        "relabel_all" => {
+            for s in schemes() { let sg = sk.sign(s, &m).ok()?; for s2 in schemes() { if s2 != s {
+                if mk::<C>(s2, sig_pt(&sg)).verify(&pk, &m).is_ok() { return Some(format!("a {} signature verifies under the label {}", scheme_name(s), scheme_name(s2))); }
+                let o = &keys[(k + 1) % keys.len()]; let sg2 = o.sign(s, b"second").ok()?;
+                if let Ok(a) = AggregateSignature::<C>::from_signatures(&[mk::<C>(s2, sig_pt(&sg)), mk::<C>(s2, sig_pt(&sg2))]) { if a.verify(&[(pk, m.clone()), (o.public_key(), b"second".to_vec())]).is_ok() { return Some(format!("an aggregate of {} signatures verifies under the label {}", scheme_name(s), scheme_name(s2))); } }
+            } } }
+            None
+        }
+        "pok_relabel" => {
+            for s in [SignatureSchemes::Basic, SignatureSchemes::ProofOfPossession] {
+                let sg = sk.sign(s, &m).ok()?;
+                let (comm, x) = ProofCommitment::<C>::generate(&m, sg).ok()?;
+                let y = ProofCommitmentChallenge::<C>::from_hash(b"c05");
+                let p = comm.finalize(x, y, sg).ok()?;
+                let (u, v) = match p { ProofOfKnowledge::Basic { u, v } => (u, v), ProofOfKnowledge::MessageAugmentation { u, v } => (u, v), ProofOfKnowledge::ProofOfPossession { u, v } => (u, v) };
+                for s2 in schemes() { if s2 != s {
+                    let q = match s2 { SignatureSchemes::Basic => ProofOfKnowledge::<C>::Basic { u, v }, SignatureSchemes::MessageAugmentation => ProofOfKnowledge::MessageAugmentation { u, v }, _ => ProofOfKnowledge::ProofOfPossession { u, v } };
+                    if q.verify(pk, &m, y).is_ok() { return Some(format!("a {} proof of knowledge verifies under the label {}", scheme_name(s), scheme_name(s2))); }
+                } }
+            }
+            None
+        }
+        _ => {
+            for s in schemes() {
+                let ct = pk.sign_crypt(s, &m);
+                let tc = pk.encrypt_time_lock(s, &m, b"id").ok()?;
+                for s2 in schemes() { if s2 != s {
+                    let mut x = ct.clone(); x.scheme = s2;
+                    if bool::from(x.is_valid()) || bool::from(x.decrypt(sk).is_some()) { return Some(format!("a {} signcryption ciphertext is accepted under the label {}", scheme_name(s), scheme_name(s2))); }
+                    let sg2 = sk.sign(s2, b"id").ok()?;
+                    if bool::from(tc.decrypt(&sg2).is_some()) { return Some(format!("a {} time-lock ciphertext opens with a {} signature", scheme_name(s), scheme_name(s2))); }
+                    let mut t2 = tc.clone(); t2.scheme = s2;
+                    if bool::from(t2.decrypt(&sk.sign(s, b"id").ok()?).is_some()) { return Some(format!("a {} time-lock ciphertext relabelled {} opens with the original signature", scheme_name(s), scheme_name(s2))); }
+                } }
+            }
+            None
+        }
     }
 }
 
